@@ -11,6 +11,7 @@ CONSTANTS
   Triples = TRUE
   EmitStride = 0
   EmitOffset = 0
+  CheckPos = FALSE
 SPECIFICATION Spec
 INVARIANT Agree
 INVARIANT Antisym
